@@ -260,6 +260,16 @@ func (f *STFS) Initialize(rootProposal string, rootPerm os.FileMode) (root strin
 
 			f.onHeader,
 		); err != nil {
+			// The tape could only be indexed in part (i.e. its last record is torn); if what could be indexed
+			// has a root, the tape must be kept as it is instead of starting over with a new root
+			if _, rerr := f.metadata.Metadata.GetRootPath(context.Background()); rerr == nil {
+				if cerr := f.readOps.GetBackend().CloseReader(); cerr != nil {
+					return "", cerr
+				}
+
+				return "", err
+			}
+
 			return mkdirRoot()
 		}
 
